@@ -307,3 +307,10 @@ PROPS = {
                         "and lone surrogates are not modelled"],
     },
 }
+
+
+# axiom conformance (DESIGN 2.5) is part of every check: a wrong model of a builtin would make
+# every proof that uses it worthless
+CONF = U('pyvc.conformance', 'unit', 'conformance')
+for _p in PROPS.values():
+    _p['units'] = list(_p['units']) + [CONF]
